@@ -111,6 +111,13 @@ static size_t MAXM;
 static void do_mlen(long L)
 {
     size_t mlen = (size_t) L; int ci, pat, a; size_t adlen;
+    if (mlen > MAXM + 15) {          /* windows around the lengths at which the low byte of a 16-byte-block counter wraps (block 254 + 256 j: bytes 4064 + 4096 j), which
+                                        also cover 64-byte-block multiples of 4096: every length in [-48, +80] around them */
+        size_t wi = mlen - MAXM - 16, j = wi / 129, d = wi % 129;
+        mlen = 4064 + 4096 * j + d - 48;
+        for (ci = 0; ci < NCONS; ci++) if (CONS[ci].avail()) { one_case(&CONS[ci], mlen, CONS[ci].has_ad ? (j & 1 ? 33 : 0) : 0, PAT_R1); }
+        return;
+    }
     if (mlen > MAXM) {               /* isolated large lengths */
         static const size_t BIG[] = { 1023, 1024, 1025, 2047, 2048, 2049, 4095, 4096, 4097, 65535, 65536, 65537, 1048575, 1048576, 1048577 };
         size_t bi = mlen - MAXM - 1;
@@ -151,7 +158,7 @@ int main(void)
     printf("INFO features avx2=%d ssse3=%d sse2=%d aesni=%d pclmul=%d avx=%d gcm=%d\n", sodium_runtime_has_avx2(), sodium_runtime_has_ssse3(), sodium_runtime_has_sse2(),
            sodium_runtime_has_aesni(), sodium_runtime_has_pclmul(), sodium_runtime_has_avx(), crypto_aead_aes256gcm_is_available());
     for (ci = 0; ci < NCONS; ci++) printf("INFO construction %s available=%d forms=%d\n", CONS[ci].name, CONS[ci].avail(), 2 + CONS[ci].nx);
-    vf_parallel(16, 0, (long) MAXM + 1 + 15, do_mlen, fin);
+    vf_parallel(16, 0, (long) MAXM + 1 + 15 + 129 * (thorough ? 16 : 8), do_mlen, fin);
     vf_sample("aead_aes256gcm mlen=225 adlen=224 pattern R2: combined, detached, NULL-length-pointer and both afternm forms vs SP 800-38D reference");
     vf_sample("secretbox_xsalsa20poly1305 mlen=0: easy = 16-byte tag only; NaCl zero-padded form agrees");
     vf_sample("box_seal mlen=17 row=1: scripted RNG serves esk = ff*32; c = epk || tag || ct with nonce BLAKE2b-192(epk||pk)");
